@@ -614,6 +614,14 @@ func (u *UnitGen) sentKeys(ct types.Type) (dk, lk string, ds, ls Sort) {
 	return "SD:" + n, "SL:" + n, ArraySort(SInt, ArraySort(SInt, es)), ArraySort(SInt, SInt)
 }
 
+// recvKey: ghost counter of receives per channel (recvd(ch) in contracts).
+func (u *UnitGen) recvKey(ct types.Type) (string, Sort) {
+	// one counter array for channels of every element type: references of allocated objects
+	// are distinct across types, so a shared array is sound (aliasing of two channel-typed
+	// inputs of different types can only make a proof fail, never pass)
+	return "RV:all", ArraySort(SInt, SInt)
+}
+
 func (u *UnitGen) lockKey(structT types.Type, field string) (string, Sort) {
 	return fmt.Sprintf("LK:%s.%s", shortTypeName(structT), field), ArraySort(SInt, SInt)
 }
